@@ -1,9 +1,11 @@
-"""C07 - generic instantiation: claimed only for 'distinct instantiations never share a name' through encode_ty (E2)."""
+"""C07 - generic instantiation: 'distinct instantiations never share a name' through encode_ty, and the type kernels of monomorphisation (E2)."""
 from props import enc_ob
-def obligations(): return enc_ob.obligations('O7.1-encode_ty')
+def obligations():
+    from props import mono_ob
+    return enc_ob.obligations('O7.1-encode_ty') + mono_ob.obligations()
 META = {
     'level': 'other',
-    'explanation': 'Bounded solver-checked obligation over the real encode_ty (MIR of the current tree, incl. its format! templates and iterator chains): lazily initialised tast::Ty inputs (constructor, name and list-length choices are solver decisions) are encoded and the encodings of distinct types must differ; collisions are replayed through the native function. Known collision classes are role predicates in known_findings.json. Only the naming facet of C07 is claimed.',
-    'assumptions': ['behaviour of instances, termination of specialisation, spec_name_for (external pretty crate) are outside the claim'],
+    'explanation': 'Bounded solver-checked obligation over the real encode_ty (MIR of the current tree, incl. its format! templates and iterator chains): lazily initialised tast::Ty inputs (constructor, name and list-length choices are solver decisions) are encoded and the encodings of distinct types must differ; collisions are replayed through the native function. Known collision classes are role predicates in known_findings.json. O7.2: mono::subst_ty / has_tparam / unify are executed on lazily built template types and every instantiation of their parameters: the instantiated type has no parameter left and unify recovers exactly the instantiation (the step by which a generic call site selects its instance); a rejection is replayed through the CLI with a generated program. Naming and these kernels are the claimed facets of C07.',
+    'assumptions': ['behaviour of instance bodies, termination of specialisation over whole programs, spec_name_for (external pretty crate) are outside the claim'],
     'trusted_base': ['mirsym MIR interpreter', 'library models listed per obligation', 'z3'],
 }
